@@ -687,7 +687,8 @@ struct Explorer
       if (residualKind(sc->kind))
       {
         ++r.counters[std::string("residual_outside_content_returned:") + kindName[sc->kind]];
-        if (!residualNoted)
+        // one deterministic example only: first bad interleaving of the canonical scenario
+        if (!residualNoted && sc->mode == 0 && sc->op == 0 && sc->start == 0 && sc->sub == 0 && sc->name == "sub/a.txt")
         {
           residualNoted = true;
           r.notes.push_back(std::string("intermediate-component swap (outside the statement's final-component clause; "
